@@ -90,7 +90,7 @@ func init() {
 		"Decides: after a slot is installed every exit received from its own callback or removed its own slot; the registry is accessed under its mutex, inserts are dominated by the window test and by a failed lookup of the same identifier; the answer goes to the channel and filters returned by the single endTx call keyed with the identifier parsed from that packet; callbacks are answered only after removal from their registry, with capacity ≥ the sends of a life cycle; toOffline and termCallbacks release all waiting requests with ErrBreak; error classes per method and quit ⇒ ErrCanceled/ErrAbandoned. Known finding F7 (Ping empties the shared slot without identity check) is reported as KNOWN-FINDING. Third round: A SUBACK return code 0x80 is counted, the count decides whether a SubscribeError is sent, and the error lists exactly the filters with code 0x80; the callback returned by endTx is used only when non-nil. Not decided: absence of starvation under real schedules.",
 		asmCommon)
 	prop("C12", "Close and Disconnect from any state", "§4 C12",
-		[]string{"TOK-1", "TOK-2", "TOK-3", "TOK-7", "TOK-8", "TOK-11", "PAN-2", "PAN-4", "ORD-7", "ORD-8", "ERR-2", "TOK-14", "ORD-11"},
+		[]string{"TOK-1", "TOK-2", "TOK-3", "TOK-7", "TOK-8", "TOK-11", "PAN-2", "PAN-4", "ORD-7", "ORD-8", "ERR-2", "TOK-14", "ORD-11", "ORD-6"},
 		"token typestate (closer summaries, closed-aware receives); rendezvous rule; must-pass-through",
 		lvlCommon, noteCommon,
 		"Decides: Close/Disconnect cancel the context before waiting for connSem, take connSem, take or interrupt the writer, and close both tokens exactly once while holding both (a second call sees the closed channel and touches nothing); every receive from a closable token is comma-ok or under the closer's lock; the dialAndConnect watcher and the termCallbacks goroutines have their rendezvous partner on every path; signal flips happen under the write token with the opposite signal blocked first; no method is called on a connSignal or nil connection; ReadSlices calls termCallbacks on ErrClosed, queued exchanges get ErrClosed and stay open; DISCONNECT is the last packet; not-submitted classes imply no wire call. Third round: Close and Disconnect close the connection (or know there is none) before a plain receive of the write token; the connection is handed to connSem before the retransmission round; WaitGroup.Add precedes each go statement; a blocked signal is followed by the release of the other. Not decided: 'promptly' as a time bound; goroutine-leak freedom beyond the spawned closures having exits on all paths.",
@@ -114,7 +114,7 @@ func init() {
 		"Decides: encodeValue and decodeValue agree on hash constructor, byte orders, offsets (8/4/12) and hashed extent, the trailer buffer is per call, the length test dominates all slicing and acceptance requires both tests; the rugged Load returns a value only after a nil decode and reports absence only for a nil delegate result; every Persistence the client uses is rugged or volatile; AdoptSession decodes every listed key and deletes, warns and skips corrupt ones; the client identifier comes from a checked Load. Third round: initSession and the file store examine every List/Save/Load/OS error; the client identifier record is never deleted or filed by adoption. Not decided: that FNV-1a detects every single-byte change (a fact about hash/fnv, trusted); multi-byte damage.",
 		asmCommon)
 	prop("C16", "a damaged Persistence never bricks the session", "§4 C16",
-		[]string{"ADP-1", "ADP-2", "ADP-3", "ADP-4", "ADP-5", "ADP-6", "ADP-7", "ADP-8", "ORD-2", "ORD-9", "COD-10", "ERR-8"},
+		[]string{"ADP-1", "ADP-2", "ADP-3", "ADP-4", "ADP-5", "ADP-6", "ADP-7", "ADP-8", "ORD-2", "ORD-9", "COD-10", "ERR-8", "ADP-10"},
 		"path rules and structural checks on AdoptSession and cleanSequence",
 		lvlCommon, noteCommon,
 		"Decides: every branch that warns also abandons what it names (corrupt record: delete+warn+continue before classification; PUBREL gap: list emptied; cleanSequence: prefix dropped and scan restarted at the first pair); every listed key is integrity checked; counters and placeholders come from cleanSequence results; capacity checks precede the placeholders and treat negative limits as default; fatal results stem only from Config, List, Load and the Max checks; wrap tests compare with the start of their range; resend needs the contiguity these establish. Third round: The Max checks compare the sum of the right lists after the last list update; the client identifier record is skipped before Delete and filing; the running maximum; the adjacency decisions on test vectors; List's filter. Not decided: which records survive a given damage pattern; a damaged client-identifier record.",
